@@ -249,7 +249,26 @@ structure Gen where
   kind : GenKind
   cfg : NumCfg
   counter : Nat        -- next value of `self.counter`
+  start : Nat          -- `self.start`: what the counter was created from (this is what is persisted)
   deriving Repr
+
+/-- What `UniqueNumericIdGenerator.__reduce__` writes into a continuation file for a generator
+    held by a just_once row: the template, `randomize` and the *original* `start` — neither the
+    pid, nor the context number, nor the position of the counter ("continuation processes
+    should have their own"). (`min_chars` is written too; the numeric generator never reads it.) -/
+structure SavedGen where
+  parts : List Part
+  randomize : Bool
+  start : Nat
+  deriving Repr, DecidableEq
+
+/-- `__reduce__` of a numeric generator. An `AlphaUniquifier` inherits `PluginResult.__reduce__`
+    and persists `{}`, from which it cannot be rebuilt (the resumed run fails while loading the
+    file): `none`. -/
+def reduceGen (g : Gen) : Option SavedGen :=
+  match g.kind with
+  | .numeric r => some { parts := g.cfg.parts, randomize := r, start := g.start }
+  | .alpha _ _ _ => none
 
 /-- process state: next value of `UniqueNumericIdGenerator.context_uniqifier` and the generators
     created so far (in creation order) -/
@@ -263,6 +282,10 @@ inductive Op where
   | newAlpha (parts : List Part) (pidParts : List Nat) (alphabet : List Char) (minChars : Nat) (randomize : Bool)
   | draw (gen : Nat)
   | burn     -- a constructor that failed after `next(self.context_uniqifier)` (bad template)
+  /-- `PluginResult._from_continuation`: `cls(**state)` — an ordinary constructor call in the
+      resuming process: the context number is drawn from *that* process's counter, the counter
+      restarts at the persisted `start`; the pid is the resuming process's -/
+  | restore (s : SavedGen) (pidParts : List Nat)
   deriving Repr
 
 inductive Val where
@@ -289,12 +312,17 @@ def step (lg : Nat → Nat) (mask : Nat → Nat → Nat) (p : Proc) : Op → Pro
   | .newNumeric parts pidParts r =>
     -- `next(self.context_uniqifier)` happens first in `__init__`, before anything can fail
     let g : Gen := { kind := .numeric r, cfg := { parts := parts, pidParts := pidParts, ctx := p.nextCtx },
-                     counter := numericStart }
+                     counter := numericStart, start := numericStart }
+    ({ nextCtx := p.nextCtx + 1, gens := p.gens ++ [g] }, .created p.gens.length)
+  | .restore sv pidParts =>
+    let g : Gen := { kind := .numeric sv.randomize,
+                     cfg := { parts := sv.parts, pidParts := pidParts, ctx := p.nextCtx },
+                     counter := sv.start, start := sv.start }
     ({ nextCtx := p.nextCtx + 1, gens := p.gens ++ [g] }, .created p.gens.length)
   | .newAlpha parts pidParts alphabet mc r =>
     let al := effAlphabet alphabet
     let g : Gen := { kind := .alpha al mc r, cfg := { parts := parts, pidParts := pidParts, ctx := p.nextCtx },
-                     counter := alphaStart }
+                     counter := alphaStart, start := alphaStart }
     -- the inner numeric generator is created (and takes a context number) before BaseConverter
     -- checks the alphabet
     match checkAlphabet al with
